@@ -55,6 +55,13 @@ func Wrap(fam, stmt string) Prog {
 	return Prog{fam, stmt, decl.String() + "/^(\\S+) (\\d+) (\\d+\\.\\d+)$/ {\n  " + stmt + "\n}\n"}
 }
 
+// WrapElse places stmt in the else branch of the frame's pattern (captures of a pattern that did not match).
+func WrapElse(fam, stmt string) Prog {
+	p := Wrap(fam, stmt)
+	p.Src = strings.Replace(p.Src, " {\n  "+stmt+"\n}\n", " {\n} else {\n  "+stmt+"\n}\n", 1)
+	return p
+}
+
 // All enumerates the families; ctxs selects how many of the 5 placements are used.
 func All(thorough bool) []Prog {
 	var out []Prog
@@ -73,6 +80,22 @@ func All(thorough bool) []Prog {
 		for _, cx := range ctxs {
 			out = append(out, Wrap("unary-in-context", fmt.Sprintf(cx, "~"+x)))
 			out = append(out, Wrap("unary-in-context", fmt.Sprintf(cx, "~ ("+x+" > 1)")))
+		}
+	}
+	// captures (incl. the whole match $0) used where their pattern did not match, and in the matching branch
+	for _, cap := range []string{"$0", "$1", "$2", "$3"} {
+		for _, st := range []string{"d[" + cap + "]++", "t = " + cap, "g = " + cap, "c += " + cap, "g = len(" + cap + ")", cap + " == \"x\" {\n  }"} {
+			out = append(out, WrapElse("capture-in-else", st), Wrap("capture-in-then", st))
+		}
+	}
+	// conditions joined with a pattern constant or literal on either side
+	for _, pat := range []string{"A", "/x/", "/7/"} {
+		for _, cnd := range []string{"$2 > 5", "$2 < 5", "$1 == \"x\"", "g > 0", "$3 >= 1.5"} {
+			for _, lop := range []string{"&&", "||"} {
+				out = append(out, Wrap("logical-with-pattern", cnd+" "+lop+" "+pat+" {\n    c++\n  }"))
+				out = append(out, Wrap("logical-with-pattern", pat+" "+lop+" "+cnd+" {\n    c++\n  }"))
+				out = append(out, Wrap("logical-with-pattern", "("+cnd+") "+lop+" "+pat+" {\n    c++\n  } else {\n    d[$1]++\n  }"))
+			}
 		}
 	}
 	for _, x := range Consts {
